@@ -25,7 +25,7 @@ EXPLANATION = (
 ASSUMPTIONS = ["A1 z3 sound", "A2 numpy object-array semantics", "A4 exact integer determinant stands in for the float det of small 0/1 matrices",
                "A5 networkx conversions faithful"]
 BOUNDS = {"quick": {"graph->stab": "n<=4", "stab->graph (M.[I|G])": "n<=2", "state_to_graph": "n<=2"},
-          "thorough": {"graph->stab": "n<=5", "stab->graph": "n<=3", "state_to_graph": "n<=3"}}
+          "thorough": {"graph->stab": "n<=5", "stab->graph": "n<=3", "state_to_graph": "n<=3 (three-hour budget, ~181k paths), n=4 30 min budget"}}
 OUTSIDE = ("every pair involving 'dm' (graph_to_density is concrete numerics once the graph is fixed; density_to_graph needs "
            "negativity / eigh) -- those clauses are NOT decided here; mixed states; large-n float det/inv")
 
@@ -195,7 +195,7 @@ def plan(tier):
     for n in ([1, 2] if q else [1, 2]):
         jobs.append((StateToGraph(n=n, kind="stabilizer"), {}))
     jobs.append((StateToGraph(n=2, kind="clifford"), {}))
-    for n, budget in (((3, 40), (4, 50)) if q else ((4, 3600),)):
+    for n, budget in (((3, 40), (4, 50)) if q else ((4, 1800),)):
         # budgeted, seeded-random exploration of the next sizes (every explored path is decided for all sign patterns)
         h = StateToGraph(n=n, kind="stabilizer")
         h.parallel = True
